@@ -38,7 +38,7 @@ func (e *c13E) print(spaced bool) string {
 		default:
 			return fmt.Sprint(v)
 		}
-	case "path":
+	case "path", "call":
 		return e.path
 	case "not":
 		return "!" + wrap(e.a)
@@ -63,6 +63,11 @@ func (e *c13E) eval(env map[string]any) any {
 			cur = m[p]
 		}
 		return cur
+	case "call":
+		if e.path == "len(xs)" {
+			return len(env["xs"].([]any))
+		}
+		return len(env["s"].(string))
 	case "not":
 		return !e.a.eval(env).(bool)
 	case "neg":
@@ -109,6 +114,9 @@ func c13Gen(r *Rng, typ string, depth int) *c13E {
 		case "int":
 			if r.Bool() {
 				return &c13E{op: "lit", typ: typ, lit: r.Intn(9)}
+			}
+			if r.Intn(4) == 0 {
+				return &c13E{op: "call", typ: typ, path: Pick(r, []string{"len(xs)", "len(s)"})}
 			}
 			return &c13E{op: "path", typ: typ, path: Pick(r, []string{"a", "b", "n0", "m.n"})}
 		case "str":
@@ -219,7 +227,7 @@ func runC13(r *Run) {
 		}
 	}
 	rec("")
-	for _, e := range []string{"item | double | . > 5", `name | upper | default("x", 2)`, "len(items)", "fn()", "a.b | f(1, 'x,y', z) | g", " x | y ", "a === b", "a !== b", "a====b", "x | f(a | b)", "f(a)(b)", "9fn(x)", "_f(x) | g()", "a - b", "a-b", "a ? b : c", "a?b", "price | . > 100 ? 'hi' : 'lo'", "x || y", "f(')')", "f(a, b))"} {
+	for _, e := range []string{"item | double | . > 5", `name | upper | default("x", 2)`, "len(items)", "fn()", "a.b | f(1, 'x,y', z) | g", " x | y ", "a === b", "a !== b", "a====b", "x | f(a | b)", "f(a)(b)", "9fn(x)", "_f(x) | g()", "a - b", "a-b", "a ? b : c", "a?b", "price | . > 100 ? 'hi' : 'lo'", "x || y", "f(')')", "f(a, b))", "len(a) + len(b)", "len(a) == len(b)", "f(x) > g(y)", "f(a) && g(b)", "f(a) ? g(b) : h(c)", "f(a) - 1", "f(g(x))", "f(a)+g(b)", "f(a) | g(b)", "len(xs) + 2"} {
 		classify(e, true)
 	}
 	// ---------- positions ----------
@@ -264,6 +272,9 @@ func runC13(r *Run) {
 		}
 		if e.op == "path" {
 			class = "path"
+		}
+		if e.op == "call" {
+			class = "call"
 		}
 		if e.op == "lit" && class == "canonical" {
 			class = "bare-literal"
@@ -324,6 +335,10 @@ func runC13(r *Run) {
 			if strings.HasPrefix(trimmed, "!") {
 				tab = append(tab, xOf(strings.TrimSpace(trimmed[1:])))
 			}
+			if class == "call" { // a bare call goes to the function map, which the model stream is not given: oracle only
+				r.Eval("call:"+p.name+":"+text, true, nil)
+				continue
+			}
 			coq := fmt.Sprintf("CPosition %s %s %s [%s]", p.coq, coqBytes(text), data.Coq(), strings.Join(tab, "; "))
 			r.Case("positions", coq, obs, map[string]any{"expression": text, "position": p.name, "class": class}, map[string]string{"class": class, "position": p.name}, e.op == "bin" || e.op == "tern")
 		}
@@ -380,6 +395,9 @@ func c13Pipes(r *Run) {
 		"isPos":  func(n int) bool { return n > 0 },
 		"fails":  func(s string) (string, error) { return "", errBoom },
 		"ustr":   func(u uint) string { return fmt.Sprint("u", u) },
+		"tag": func(ctx *vuego.VueContext, v any, opts ...string) string { // context-injected and variadic
+			return fmt.Sprintf("%T:%v:%s", v, v, strings.Join(opts, ","))
+		},
 	}
 	type step struct {
 		src  string
@@ -419,6 +437,8 @@ func c13Pipes(r *Run) {
 			}
 			return nil, false
 		}},
+		{`tag("p", "q")`, "tag", func(v any) (any, bool) { return fmt.Sprintf("%T:%v:p,q", v, v), true }},
+		{"tag", "tag", func(v any) (any, bool) { return fmt.Sprintf("%T:%v:", v, v), true }},
 		{"nosuch", "nosuch", func(v any) (any, bool) { return nil, false }},
 		{"fails", "fails", func(v any) (any, bool) { return nil, false }},
 		{"join2", "join2", func(v any) (any, bool) { return nil, false }},          // wrong argument count
